@@ -247,6 +247,10 @@ def grad_flag_sets(container, bilinear):
     n = len(container.fields)
     k0 = fkind(container.fields[0])
     if n > 1:
+        if n == 2 and bilinear and k0 == "Field" and fkind(container.fields[1]) == "Field":
+            # two plain fields (vector + scalar): also all-value spaces (mass-like coupling blocks: scalar test x vector trial
+            # and the reverse) and value test x gradient trial
+            return [None, ([False, False], [False, False]), ([False, False], [True, False])]
         return [None]  # default: gradient of the first field, values of the others
     if k0 == "FieldAxisymmetric":
         return [[True], [False]] if not bilinear else [([True], [True]), ([False], [True])]
@@ -342,6 +346,13 @@ def run_bilinear(case):
             def zeros_list():
                 return [None for (i, j) in blocks]
 
+            def given(arr, i, j):
+                # value x value block with a scalar test and a vector trial space: felupe takes the integrand with an explicit
+                # size-one test axis, (1, k, q, c) (a bare (k, q, c) array is read as vector test x scalar trial)
+                if not fv[i] and not fu[j] and tv[i] == () and tu[j] != ():
+                    return arr.reshape((1,) + arr.shape)
+                return arr
+
             # unit integrands block by block
             for bi, (i, j) in enumerate(blocks):
                 Iv = unit_indices(tv[i], cont.fields[i], fv[i])
@@ -355,7 +366,7 @@ def run_bilinear(case):
                                 e = np.zeros(shape_of(i, j))
                                 e[I + J + (q0, c0)] = 1.0
                                 fun = zeros_list()
-                                fun[bi] = e
+                                fun[bi] = given(e, i, j)
                                 got = fem.IntegralForm(fun, cont, region.dV, cont, **kw).assemble().toarray()
                                 c.trans += 1
                                 c.states += 1
@@ -381,7 +392,7 @@ def run_bilinear(case):
             patterns = list(itertools.product((True, False), repeat=len(blocks))) if len(blocks) <= 6 else (
                 [tuple(True for _ in blocks)] + [tuple(k != m for k in range(len(blocks))) for m in range(len(blocks))] + [tuple(k == m for k in range(len(blocks))) for m in range(len(blocks))])
             for pattern in patterns:
-                fun = [full[bi] if pattern[bi] else None for bi in range(len(blocks))]
+                fun = [given(full[bi], *blocks[bi]) if pattern[bi] else None for bi in range(len(blocks))]
                 got = fem.IntegralForm(fun, cont, region.dV, cont, **kw).assemble().toarray()
                 c.trans += 1
                 ref = np.zeros((N, N))
